@@ -15,6 +15,8 @@ type xcase struct {
 	code  string
 	kind  string // "", "async", "gen"
 	label string
+	ref   string                          // optional reference program (default: the input itself)
+	mod   func(o *api.TransformOptions) // optional per-case option modifier (define/pure/drop ...)
 }
 
 type xcfg struct {
@@ -28,6 +30,7 @@ type runCase struct {
 	Async bool          `json:"async,omitempty"`
 	Fresh bool          `json:"fresh,omitempty"`
 	Mode  string        `json:"mode,omitempty"`
+	NoNames bool        `json:"noNames,omitempty"`
 }
 type runResp struct {
 	R          [][]string `json:"r"`
@@ -107,8 +110,12 @@ func mergeKind(a, b string) (string, bool) {
 	return "", false
 }
 
+func fnBoundary(s string) bool {
+	return strings.Contains(s, "=>") || strings.Contains(s, "function") || strings.Contains(s, "() {") || strings.Contains(s, " = $0") && strings.Contains(s, "class")
+}
+
 func mkCase(ctx xctx, n *xnode, kind string) xcase {
-	if kind == "async" && strings.HasPrefix(ctx.name, "class-") && ctx.name != "class-extends" && ctx.name != "class-key" {
+	if kind != "" && (fnBoundary(ctx.tpl) || (strings.HasPrefix(ctx.name, "class-") && ctx.name != "class-extends" && ctx.name != "class-key")) {
 		// await expressions are not part of the grammar of class field initialisers: use a plain function
 		// (the tree's "await" then is not generated in this context; see known finding probe)
 		ctx = xContexts[0]
@@ -148,10 +155,18 @@ func segPairs(name string, ctxs []xctx, parents, children []xop) xseg {
 		kids := make([]*xnode, p.p.nE)
 		kids[p.slot] = opNode(ch)
 		k, ok := mergeKind(kindOf(p.p), kindOf(ch))
-		if !ok {
-			k = "async"
+		if kindOf(ch) != "" && fnBoundary(p.p.tpl) {
+			ok = false // await/yield inside a nested non-async function is not an await/yield expression
+			k = ""
+			if kindOf(p.p) != "" {
+				k = kindOf(p.p)
+			}
+			kids[p.slot] = nil
+		} else if !ok {
+			k = kindOf(p.p)
 			kids[p.slot] = nil
 		}
+		_ = ok
 		return mkCase(ctx, opNode(p.p, kids...), k)
 	}}
 }
@@ -291,6 +306,8 @@ type xrunner struct {
 	baseline func(code string, kind string) (string, bool) // nil: the input itself is the reference
 	onOutput func(cs xcase, cfg string, out string)      // optional extra oracle per output
 	keyPrefix string
+	noNames   bool                        // do not observe constructor/function names (minify-identifiers without keep-names)
+	classify  func(exp, got string) string // maps a mismatch to a known-finding key ("" = ordinary violation)
 }
 
 // runBatch evaluates a batch of cases: reference (input) vs every configuration's output in V8.
@@ -306,6 +323,9 @@ func (x *xrunner) runBatch(w int, cases []xcase, seg string) {
 	for _, cs := range cases {
 		c.Eval(1)
 		ref := cs.code
+		if cs.ref != "" {
+			ref = cs.ref
+		}
 		if x.baseline != nil {
 			var ok bool
 			ref, ok = x.baseline(cs.code, cs.kind)
@@ -317,7 +337,11 @@ func (x *xrunner) runBatch(w int, cases []xcase, seg string) {
 		p := pending{cs: cs, codes: []string{ref}, cfgs: []string{"ref"}}
 		seen := map[string]bool{ref: true}
 		for _, cfg := range x.cfgs {
-			out, ok, _ := transformJS(cs.code, cfg.opts)
+			o := cfg.opts
+			if cs.mod != nil {
+				cs.mod(&o)
+			}
+			out, ok, _ := transformJS(cs.code, o)
 			if !ok {
 				c.Sub("rejected:"+cfg.name, 1)
 				if cfg.name == "default" && os.Getenv("VERIF_DEBUG") != "" {
@@ -340,7 +364,7 @@ func (x *xrunner) runBatch(w int, cases []xcase, seg string) {
 			continue
 		}
 		pend = append(pend, p)
-		rcs = append(rcs, runCase{Codes: p.codes, Calls: x.calls, Async: cs.kind == "async"})
+		rcs = append(rcs, runCase{Codes: p.codes, Calls: x.calls, Async: cs.kind == "async", NoNames: x.noNames})
 	}
 	if len(rcs) == 0 {
 		return
@@ -374,6 +398,11 @@ func (x *xrunner) runBatch(w int, cases []xcase, seg string) {
 				key := x.keyPrefix + p.cfgs[k] + ":" + p.cs.code
 				if seg == "known-probes" {
 					key = "probe:" + p.cs.code
+				}
+				if x.classify != nil {
+					if k := x.classify(obs[0], obs[k]); k != "" {
+						key = k
+					}
 				}
 				c.Violation(key, map[string]interface{}{"kind": "behaviour-differs", "segment": seg, "config": p.cfgs[k], "input": p.cs.code, "reference": p.codes[0], "output": p.codes[k], "expected_obs": obs[0], "observed_obs": obs[k]})
 			}
